@@ -217,6 +217,12 @@ fn scenarios() -> Vec<Scenario> {
         v.push(Scenario { chunk: usize::MAX, name: leak(format!("{mn}/4x1/p3")), mode, threads: vec![vec![f1], vec![l1], vec![w1], vec![k0]], preemptions: 3, thorough_only: true });
         v.push(Scenario { chunk: usize::MAX, name: leak(format!("{mn}/3x3/p2")), mode, threads: vec![vec![f1, w1, k0], vec![l1, w2, f2], vec![k1, f3, w3]], preemptions: 2, thorough_only: true });
         v.push(Scenario { chunk: 1, name: leak(format!("{mn}/short-sink1/3x1/p3")), mode, threads: vec![vec![w3], vec![w4], vec![f3]], preemptions: 3, thorough_only: true });
+        v.push(Scenario { chunk: usize::MAX, name: leak(format!("{mn}/4x1/unbounded")), mode, threads: vec![vec![f1], vec![l1], vec![w1], vec![k0]], preemptions: usize::MAX, thorough_only: true });
+        v.push(Scenario { chunk: usize::MAX, name: leak(format!("{mn}/3x3/p3")), mode, threads: vec![vec![f1, w1, k0], vec![l1, w2, f2], vec![k1, f3, w3]], preemptions: 3, thorough_only: true });
+        v.push(Scenario { chunk: usize::MAX, name: leak(format!("{mn}/4x2/p2")), mode, threads: vec![vec![f1, w1], vec![l1, w2], vec![f2, k1], vec![c1, k0]], preemptions: 2, thorough_only: true });
+        v.push(Scenario { chunk: usize::MAX, name: leak(format!("{mn}/2x4/unbounded")), mode, threads: vec![vec![f1, w1, l1, c1], vec![l1, w2, f2, k1]], preemptions: usize::MAX, thorough_only: true });
+        // (loom supports at most four spawned threads next to the main one)
+        v.push(Scenario { chunk: 2, name: leak(format!("{mn}/short-sink/2x2/p3")), mode, threads: vec![vec![w3, f3], vec![w4, k1]], preemptions: 3, thorough_only: true });
         v.push(Scenario { chunk: usize::MAX, name: leak(format!("{mn}/2x3/p3")), mode, threads: vec![vec![f1, w1, l1], vec![l1, w2, f2]], preemptions: 3, thorough_only: false });
         v.push(Scenario { chunk: usize::MAX, name: leak(format!("{mn}/4x1/p2")), mode, threads: vec![vec![f1], vec![l1], vec![w1], vec![f2]], preemptions: 2, thorough_only: false });
         v.push(Scenario { chunk: usize::MAX, name: leak(format!("{mn}/3x2/p3")), mode, threads: vec![vec![f1, w1], vec![l1, w2], vec![f2, l1]], preemptions: 3, thorough_only: false });
